@@ -43,6 +43,7 @@ func runC18(c *Ctx, r *Report) {
 	stageKeepsNoAtomicState(c, r, "C18-f/no-memo", func(p token.Pos) bool { return inFuncsTime(c, p) }, true)
 	c18WholeSecondsOut(c, r, "C18-d/whole-seconds-out")
 	c18DurationAuthority(c, r, "C18-d/duration-authority")
+	c18OffsetPrecision(c, r, "C18-h/offset-precision")
 	// names (formats, buckets, attributes) are resolved the same way on every run: no lookup by
 	// iterating a map in hash order and taking the first hit
 	nm := emitMapLoops(c, r, "C18-g/map-order", analyseMapLoops(c), func(ml mapLoop) bool { return inFuncsTime(c, ml.Rs.Pos()) })
